@@ -230,6 +230,7 @@ inline Session::Channel::Channel(Session& session, std::size_t queueCapacity, Wr
   static_assert(alignof(detail::Queue) <= alignof(Session*), "");
   char* queueBuffer = buffer + sizeof(detail::Queue);
   new (buffer) detail::Queue(queueBuffer, queueCapacity);
+  BINLOG_VERIF_POINT("channel-queue-constructed");
 }
 
 inline Session::Channel::~Channel()
